@@ -9,7 +9,7 @@ CLAUSE_PROP = {"Registry": "C06", "Missing": "C06", "NotSubscribed": "C06", "Twi
 PROFILES = {
   "C06": {"weights": [40, 40, 6, 4, 3, 3], "min_ops": 5, "max_ops": 12},
   "C08": {"weights": [15, 70, 5, 3, 1, 2], "min_ops": 6, "max_ops": 14, "prios": [1, 1, 1, 2, 2, 3], "max_pub2": 4},
-  "C13": {"weights": [15, 20, 25, 20, 8, 12], "min_ops": 5, "max_ops": 12},
+  "C13": {"weights": [15, 20, 25, 20, 8, 12], "min_ops": 5, "max_ops": 12, "bad": 6},
 }
 
 
